@@ -8,6 +8,16 @@ from .src import Source
 
 # (name, program text defining RESULT or raising, expected repr of RESULT / "raise <Exc>")
 PROGRAMS = [
+    ("islice-continues-a-shared-iterator", '''
+import itertools
+src = iter([1, 2, 3, 4, 5, 6, 7])
+out = [None] * 7
+for start in range(0, 7, 3):
+    chunk = list(itertools.islice(src, 3))
+    out[start:start + len(chunk)] = chunk
+rest = list(itertools.islice(iter("abcdef"), 1, 5, 2))
+RESULT = (out, rest)
+''', "([1, 2, 3, 4, 5, 6, 7], ['b', 'd'])"),
     ("property-and-setter", '''
 class A:
     def __init__(self): self._x = 1
